@@ -32,3 +32,23 @@ pub fn prec(line: &str) -> String {
     v::vclock_disable();
     format!("some {} {}", p, reads / 2)
 }
+
+/// `K K K | freq step` (K = `T` TSC timer at `freq` under a virtual clock stepping `step`
+/// ticks per read, `O` OS timer): the value `Timer::precision()` — the cached, reported
+/// one — returns for each query, in order, in THIS process (run one process per case).
+pub fn precq(line: &str) -> String {
+    let (kinds, rest) = line.split_once('|').expect("precq");
+    let t = toks(rest.trim());
+    let f: u64 = t[0].parse().unwrap();
+    let step: u64 = t[1].parse().unwrap();
+    v::set_precision_override(None);
+    v::vclock_set(0);
+    v::vclock_enable(f, step);
+    let mut out = String::from("ok");
+    for k in kinds.split(' ').filter(|k| !k.is_empty()) {
+        let p = if k == "T" { v::timer_precision(Some(f)) } else { v::timer_precision(None) };
+        out.push_str(&format!(" {p}"));
+    }
+    v::vclock_disable();
+    out
+}
